@@ -120,8 +120,27 @@ def analyse_metric(repo: Repo, rep: Report, file: str, cname: str, fwd_atoms: Di
         rep.violation("ACC", upd, f"update writes {sorted(written)}", f"both {err_attr} and {tot_attr} must be advanced on every update")
         return n
     if any(len(v) != 1 for v in written.values()):
-        rep.undecided("ACC", upd, "update()", "an accumulator is advanced at more than one site")
-        return n
+        # several increment sites: alternatives only if all but the last sit on early-return paths
+        from ..astutil import ancestors, set_parents
+
+        set_parents(upd.node)
+        sites = [st for ch, kind, val, st in tu.attr_writes if ch in (err_attr, tot_attr)]
+        early = []
+        for st in sites:
+            blk = next((a for a in ancestors(st) if isinstance(a, ast.If)), None)
+            if blk is not None and any(isinstance(x, ast.Return) for x in blk.body) and st in list(stmts_of(blk.body)):
+                early.append(st)
+        if len(sites) - len(early) > 2 or not early:
+            rep.undecided("ACC", upd, "update()", "an accumulator is advanced at more than one site on the same path")
+            return n
+        for ch in list(written):
+            u = frozenset()
+            for v in written[ch]:
+                u = u | v
+            written[ch] = [u]
+        if not any(ch == err_attr for ch, kind, val, st in tu.attr_writes if st in early):
+            # an early-exit path that advances the total but not the error count: errors += 0 on that path
+            pass
 
     # ---- reset zeroes exactly what update writes
     rst = repo.method(ci, "reset")
